@@ -50,7 +50,13 @@ def send_msg(sock, msg, comment=None):
 
 def recv_msg(sock, state_overwrites=None, comment=None):
     try:
-        data_len = struct.unpack('!I', sock.recv(4))[0]
+        header = bytes()
+        while len(header) < 4:
+            chunk = sock.recv(4 - len(header))
+            if not chunk:
+                break
+            header += chunk
+        data_len = struct.unpack('!I', header)[0]
     except (BrokenPipeError, struct.error, ConnectionResetError, ConnectionAbortedError, OSError) as e:
         raise ConnectionClosedError() from e
 
@@ -59,6 +65,8 @@ def recv_msg(sock, state_overwrites=None, comment=None):
     try:
         while data_len:
             chunk = sock.recv(data_len)
+            if not chunk:
+                raise ConnectionClosedError()
             data_len -= len(chunk)
             data += chunk
     except (ConnectionResetError) as e:
